@@ -45,6 +45,7 @@ structure ConnInfo where
   endSeq : Option Nat                -- seq of that event
   remoteClosed : Option Nat          -- seq of r.close / r.reset
   pauses : List (Nat × Nat) := []    -- intervals in which the remote deliberately did not read
+  tornWrite : Bool := false          -- some WriteUpdate call of this peer returned an error
   remoteFin : Bool := false          -- the remote only half-closed (FIN): everything it sent before is read by corebgp, and it
                                      -- keeps reading what corebgp writes until corebgp closes
 deriving Inhabited
@@ -65,6 +66,7 @@ def connsOf (evs : List Ev) (peer : String) : List ConnInfo :=
       endSeq := (mine.find? fun e => e.ev == "r.eof" || e.ev == "r.rst").map (·.seq),
       remoteClosed := (mine.find? fun e => e.ev == "r.close" || e.ev == "r.reset").map (·.seq),
       remoteFin := mine.any fun e => e.ev == "r.close" && e.arg 1 == "fin",
+      tornWrite := evs.any fun e => e.peer == peer && e.ev == "wu.ret" && e.arg 2 == "err",
       pauses := (mine.filter (·.ev == "r.pause")).map fun e =>
         (e.t, ((mine.find? fun x => x.ev == "r.resume" && x.seq > e.seq).map (·.t)).getD (e.t + (e.arg 1).toNat?.getD 0 * 1000000)) }
 
@@ -250,7 +252,9 @@ def checkConn (cfg : SessCfg) (c : ConnInfo) (cbs : List CbCall) (allowLocal : B
   let mut fails : List String := []
   match outEnd with
   | .clean => pure ()
-  | .truncated => if c.ended.isSome then fails := fails ++ ["C04 corebgp's byte stream ends inside a message"]
+  -- (a WriteUpdate that was cut short by the teardown of its session — it returned an error — may leave the beginning of
+  -- its message as the very last bytes of the connection)
+  | .truncated => if c.ended.isSome && !c.tornWrite then fails := fails ++ ["C04 corebgp's byte stream ends inside a message"]
   | .fault _ => fails := fails ++ ["C04 corebgp's byte stream is not a concatenation of well-formed messages"]
   let outMsgs : List (UInt8 × Bytes) := outFrames.map fun (t, b) => (t, Spec.frame t b)
   match outMsgs with
@@ -373,9 +377,10 @@ def monitorHold (cfg : SessCfg) (c : ConnInfo) (cbs : List CbCall) (tObsEnd : Na
     -- (b) once silent for the hold time the session must be torn down
     if hold != 0 && c.remoteClosed.isNone then
       let tLast := (ins.filter fun (t, _, _) => t ≤ tEnd).foldl (fun m (t, _, _) => max m t) 0
-      let expired := outs.any fun (_, ty, b) => ty == 3 && b.take 2 == [4, 0]
-      let otherEnd := outs.any fun (_, ty, b) => ty == 3 && b.take 2 != [4, 0]
-      if tEnd > tLast + hold * sec + 1000 * ms && !expired && !otherEnd then
+      -- (a NOTIFICATION — Hold Timer Expired or, for another reason, any other — counts only if it came by the deadline)
+      let deadline := tLast + hold * sec + 1000 * ms
+      let endedInTime := outs.any fun (t, ty, _) => ty == 3 && t ≤ deadline
+      if tEnd > deadline && !endedInTime then
         fails := fails ++ [s!"C06 the remote was silent for {(tEnd - tLast) / ms} ms with hold time {hold} s in force and the session was not torn down with Hold Timer Expired"]
     -- (c) cadence of what corebgp sends while the session is up
     let sends := (outs.filter fun (t, ty, _) => (ty == 4 || ty == 2) && t ≥ tUp).map (·.1)
